@@ -307,6 +307,7 @@ class TypeDB:
     BUILTIN = {
         "Option": ["None", "Some"], "Result": ["Ok", "Err"], "ControlFlow": ["Continue", "Break"],
         "Ordering": ["Less", "Equal", "Greater"], "Bound": ["Included", "Excluded", "Unbounded"],
+        "Entry": ["Vacant", "Occupied"],
     }
 
     def __init__(self):
